@@ -187,11 +187,234 @@ def p_C07(ctx):
         ctx.replay(sel, attr_hist, profile=prof, elem=elem, cap=cap, label="drain-edges")
 
 
+# --------------------------------------------------------------------------------------
+# receiver family (Access.tla / AccessMC.tla)
+# --------------------------------------------------------------------------------------
+BIG_MAX, BIG_HALF, BIG_HALF1, BIG_P32, BIG_WRAP = 1000001, 1000002, 1000003, 1000004, 1000005
+ACC_READ = {"idx_coord", "idx_row", "col_idx", "get_unchecked", "get_unchecked_row", "row", "col", "size"}
+ACC_WRITE = {"idxm_coord", "idxm_row", "colm_idx", "colm_idxm", "get_unchecked_mut", "get_unchecked_row_mut"}
+ACC_OP_PROPS = {"col": {"C02", "C09"}, "size": {"C03"}, "view": {"C03"}, "view_mut": {"C03"},
+                "fill": {"C13"}, "swap": {"C13"}, "swap_rows": {"C13"}, "swap_cols": {"C13"}, "row_pair_swap": {"C13"},
+                "write_rows_mut": {"C08"}, "write_cells_mut": {"C10"}, "write_col_mut": {"C09"},
+                "copy_from_slice": {"C14"}, "clone_from_slice": {"C14"}, "copy_from_toodee": {"C14"},
+                "clone_from_toodee": {"C14"}, "copy_within": {"C14"},
+                "translate": {"C15"}, "flip_rows": {"C15"}, "flip_cols": {"C15"}}
+for _o in (ACC_READ | ACC_WRITE) - {"col", "size"}:
+    ACC_OP_PROPS[_o] = {"C02"}
+ACC_MUTATING = (ACC_WRITE - {"colm_idx"}) | {"view_mut", "fill", "swap", "swap_rows", "swap_cols", "row_pair_swap", "write_rows_mut",
+                "write_cells_mut", "write_col_mut", "copy_from_slice", "clone_from_slice", "copy_from_toodee",
+                "clone_from_toodee", "copy_within", "translate", "flip_rows", "flip_cols", "sort"}
+
+
+def acc_recv_size(case):
+    nc, nr = case["root"]["nc"], case["root"]["nr"]
+    size = (nc, nr)
+    for w in case["stack"]:
+        ext = (w["e"][0] - w["s"][0], w["e"][1] - w["s"][1])
+        size = (0, 0) if ext[0] == 0 or ext[1] == 0 else ext
+    return size
+
+
+def attr_acc(case, fail):
+    kind = fail["kind"]
+    calls = case["calls"]
+    step = fail.get("step", -1)
+    if kind in ("abort", "hang") or step < 0 or step >= len(calls):
+        step = len(calls) - 1
+    call = calls[step]
+    op = call["op"]
+    a = call["a"]
+    if op == "sort":
+        opp = {"C16"} if a["by"] == "row" else {"C17"}
+    else:
+        opp = set(ACC_OP_PROPS.get(op, set()))
+    through_view = len(case["stack"]) > 0 or case["root"]["kind"] == "slice_m"
+    props = set()
+    if kind.startswith("ledger"):
+        props = {"C05"}
+    elif kind == "stack_build":
+        props = {"C03"}
+    else:
+        props = set(opp)
+        if through_view and op in ACC_MUTATING and kind in ("frame", "root", "inside", "root_shape", "redzone", "abort"):
+            props.add("C04")
+    d = fail.get("detail", {}) if isinstance(fail.get("detail"), dict) else {}
+    size = acc_recv_size(case)
+    sig = {"family": "acc", "op": op, "kind": kind, "root_kind": case["root"]["kind"], "depth": len(case["stack"]),
+           "empty_receiver": size[0] == 0,
+           "expected": (d.get("expected") or {}).get("k") if isinstance(d.get("expected"), dict) else None,
+           "observed": (d.get("observed") or {}).get("k") if isinstance(d.get("observed"), dict) else None}
+    if op == "sort":
+        sig.update({"by": a["by"], "form": a["form"], "stable": a["stable"]})
+    return props, sig
+
+
+def acc_key(case):
+    call = case["calls"][-1]
+    return [case["root"]["kind"], case["root"]["nc"], case["root"]["nr"], case["stack"], call["op"], call["a"], len(case["calls"])]
+
+
+ALL_SHAPES3 = [0, 11, 12, 13, 21, 22, 23, 31, 32, 33]
+ALL_SHAPES4 = ALL_SHAPES3 + [14, 24, 34, 41, 42, 43, 44]
+ACC_INVS = ["FrameInv", "RootShapeInv", "RejectInv", "RearrangeInv"]
+ACC_ASSUME = ["rustc/std slice, sort and rotate implementations", "TLC and the CommunityModules Json/SequencesExt modules",
+              "the harness receiver interpreter (nested views are rebuilt through the public view()/view_mut() calls)"]
+
+
+def acc_tlc(ctx, name, groups, shapes, kinds=("owned",), depth=1, mutdepth=1, bigs=(BIG_MAX, BIG_WRAP), workers=8):
+    cfg = cfg_text(constants={"Shapes": set(shapes), "RootKinds": set(kinds), "Depth": depth, "MutDepth": mutdepth,
+                              "Groups": set(groups), "BigArgs": set(bigs)},
+                   view="View", invariants=ACC_INVS)
+    return ctx.tlc_run(name, "AccessMC", cfg, workers=workers, coverage=False, xmx="8g")
+
+
+def acc_replays(ctx, r, combos, label):
+    ctx.count_nontrivial(r.cases_path, acc_key)
+    ctx.sample_from(r.cases_path)
+    for prof, elem in combos:
+        ctx.replay(r.cases_path, attr_acc, profile=prof, elem=elem, label=label)
+
+
+def p_C02(ctx):
+    ctx.rule = ("every accessor form (x[(c,r)], x[r][c], x.col(c)[r], mutable forms, unchecked getters, row, col) with every "
+                "coordinate 0..dim+1 and huge/wrap-adversarial values, on every receiver: owned, slice-built view, view and "
+                "mutable view at every window position (and nested, thorough); identity of the cell is checked by id AND address; "
+                "distinct by (root kind, shape, window stack, accessor, coordinate)")
+    ctx.assumptions = ACC_ASSUME
+    if ctx.quick:
+        r = acc_tlc(ctx, "access", ["read", "write"], [0, 11, 13, 31, 23, 32], kinds=("owned", "slice_v", "slice_m"), depth=1)
+        combos = [("dev", "u32"), ("release", "u32"), ("release", "elem")]
+    else:
+        r = acc_tlc(ctx, "access", ["read", "write"], ALL_SHAPES3, kinds=("owned", "slice_v", "slice_m"), depth=2,
+                    bigs=(BIG_MAX, BIG_HALF, BIG_HALF1, BIG_P32, BIG_WRAP), workers=12)
+        combos = [("dev", "u32"), ("release", "u32"), ("dev", "elem"), ("release", "elem"), ("release", "zst")]
+    acc_replays(ctx, r, combos, "access")
+
+
+def p_C03(ctx):
+    ctx.rule = ("every window request (start,end) with components 0..dim+1 (valid and invalid) plus huge values, made on every "
+                "receiver (owned / slice-built / view / mutable view, nested to depth 2 quick, 3 thorough); the resulting window "
+                "is compared cell by cell; through view_mut every cell is overwritten and the whole root compared; "
+                "distinct by (root kind, shape, stack, request)")
+    ctx.assumptions = ACC_ASSUME
+    if ctx.quick:
+        r = acc_tlc(ctx, "views", ["view"], [0, 11, 13, 31, 23, 32, 33], kinds=("owned", "slice_v", "slice_m"), depth=1)
+        combos = [("dev", "u32"), ("release", "u32"), ("dev", "elem")]
+        acc_replays(ctx, r, combos, "views")
+        r = acc_tlc(ctx, "views-depth2", ["view"], [22, 23], kinds=("owned", "slice_m"), depth=2, bigs=(BIG_MAX,))
+        combos = [("dev", "u32"), ("release", "u32")]
+    else:
+        r = acc_tlc(ctx, "views", ["view"], ALL_SHAPES3, kinds=("owned", "slice_v", "slice_m"), depth=2,
+                    bigs=(BIG_MAX, BIG_HALF1, BIG_P32, BIG_WRAP), workers=12)
+        combos = [("dev", "u32"), ("release", "u32"), ("dev", "elem"), ("release", "elem"), ("dev", "zst")]
+    acc_replays(ctx, r, combos, "views")
+    if not ctx.quick:
+        r3 = acc_tlc(ctx, "views-depth3", ["view"], [22, 23, 32], kinds=("owned",), depth=3, bigs=(BIG_MAX,), workers=12)
+        acc_replays(ctx, r3, [("dev", "u32"), ("release", "u32")], "views-depth3")
+
+
+MUT_GROUPS = ["write", "prim", "copy", "move", "sortrow", "sortcol"]
+
+
+def p_C04(ctx):
+    ctx.rule = ("every mutating trait operation (indexed writes, fill, swap family, row_pair_mut, rows_mut/col_mut/cells_mut "
+                "write-through forwards and backwards, the copy family, translate, flips, all sort variants with all key patterns) "
+                "with every argument, through a mutable view at every window position of every parent shape (nested, thorough); "
+                "the WHOLE root is compared with Embed(root, window, Op(window)); distinct by (shape, stack, op, args)")
+    ctx.assumptions = ACC_ASSUME
+    if ctx.quick:
+        r = acc_tlc(ctx, "mutview", MUT_GROUPS, [13, 31, 23, 32, 33], kinds=("owned", "slice_m"), depth=1)
+        combos = [("dev", "u32"), ("release", "u32"), ("dev", "elem")]
+    else:
+        r = acc_tlc(ctx, "mutview", MUT_GROUPS, ALL_SHAPES3 + [24, 42, 34, 43], kinds=("owned", "slice_m"), depth=1, workers=12)
+        combos = [("dev", "u32"), ("release", "u32"), ("dev", "elem"), ("release", "elem")]
+    sel = os.path.join(ctx.outdir, "mutview.sel.ndjson")
+    core.filter_cases(r.cases_path, sel, lambda c: len(c["stack"]) > 0 or c["root"]["kind"] == "slice_m")
+    r.cases_path = sel
+    acc_replays(ctx, r, combos, "mutview")
+    if not ctx.quick:
+        r2 = acc_tlc(ctx, "mutview-nested", ["write", "prim", "move", "copy"], [23, 32, 33], kinds=("owned",), depth=2, mutdepth=2, workers=12)
+        sel2 = os.path.join(ctx.outdir, "mutview2.sel.ndjson")
+        core.filter_cases(r2.cases_path, sel2, lambda c: len(c["stack"]) > 0)
+        r2.cases_path = sel2
+        acc_replays(ctx, r2, [("dev", "u32"), ("release", "elem")], "mutview-nested")
+
+
+def p_C13(ctx):
+    ctx.rule = ("swap / swap_rows / swap_cols / row_pair_mut / fill with every index pair 0..dim+1 plus huge values (equal, reversed, "
+                "out of range) on all three implementors: TooDee (overrides), TooDeeViewMut at every window (overrides), and a "
+                "third-party type implementing only the required methods (trait defaults); whole root compared; "
+                "distinct by (implementor, shape, stack, op, args)")
+    ctx.assumptions = ACC_ASSUME
+    shapes = [0, 11, 13, 31, 23, 32, 33] if ctx.quick else ALL_SHAPES4
+    r = acc_tlc(ctx, "prims", ["prim"], shapes, kinds=("owned", "plain", "slice_m"), depth=1,
+                bigs=(BIG_MAX, BIG_WRAP) if ctx.quick else (BIG_MAX, BIG_HALF1, BIG_P32, BIG_WRAP), workers=8 if ctx.quick else 12)
+    combos = [("dev", "u32"), ("release", "elem"), ("dev", "elem")]
+    if not ctx.quick:
+        combos += [("release", "u32"), ("dev", "zst")]
+    acc_replays(ctx, r, combos, "prims")
+
+
+def p_C14(ctx):
+    ctx.rule = ("copy_from_slice / clone_from_slice / copy_from_toodee / clone_from_toodee with source sizes around the destination's "
+                "(equal, one more, one less; owned / view / strided-view sources) on every destination (owned, every window incl. "
+                "empty ones); copy_within with every source rectangle x every destination corner 0..dim+1 plus non-fitting and huge "
+                "values; whole root compared; distinct by (root kind, shape, stack, op, args)")
+    ctx.assumptions = ACC_ASSUME
+    shapes = [0, 11, 13, 31, 23, 32, 33] if ctx.quick else ALL_SHAPES4
+    r = acc_tlc(ctx, "copies", ["copy"], shapes, kinds=("owned", "plain", "slice_m"), depth=1,
+                bigs=(BIG_MAX,) if ctx.quick else (BIG_MAX, BIG_HALF1, BIG_WRAP), workers=8 if ctx.quick else 12)
+    combos = [("dev", "u32"), ("release", "u32"), ("dev", "elem")]
+    acc_replays(ctx, r, combos, "copies")
+
+
+def p_C15(ctx):
+    ctx.rule = ("translate_with_wrap with every mid 0..dim+1 plus huge values, flip_rows, flip_cols on owned arrays of every shape up "
+                "to 6x6 (quick) / 9x9 (thorough) - every gcd cycle structure - and through mutable views at every window of shapes "
+                "up to 4x4; whole root compared; distinct by (shape, stack, op, mid)")
+    ctx.assumptions = ACC_ASSUME
+    n = 6 if ctx.quick else 9
+    big_shapes = [c * 10 + r for c in range(1, n + 1) for r in range(1, n + 1)] + [0]
+    r = acc_tlc(ctx, "moves-owned", ["move"], big_shapes, kinds=("owned", "plain"), depth=0, workers=8)
+    acc_replays(ctx, r, [("dev", "u32"), ("release", "elem")], "moves-owned")
+    r2 = acc_tlc(ctx, "moves-views", ["move"], [13, 31, 23, 32, 33] if ctx.quick else ALL_SHAPES4, kinds=("owned", "slice_m"), depth=1, workers=8)
+    acc_replays(ctx, r2, [("dev", "u32"), ("release", "u32"), ("dev", "elem")], "moves-views")
+
+
+def sort_pipeline(ctx, by):
+    grp = "sortrow" if by == "row" else "sortcol"
+    ctx.assumptions = ACC_ASSUME
+    shapes = [0, 11, 13, 31, 23, 32, 33, 14, 41] if ctx.quick else ALL_SHAPES4
+    r = acc_tlc(ctx, "sorts", [grp], shapes, kinds=("owned", "plain", "slice_m"), depth=1,
+                bigs=(BIG_MAX, BIG_WRAP), workers=8 if ctx.quick else 12)
+    combos = [("dev", "u32"), ("release", "elem")]
+    if not ctx.quick:
+        combos += [("dev", "elem"), ("release", "u32")]
+    acc_replays(ctx, r, combos, "sorts")
+
+
+def p_C16(ctx):
+    ctx.rule = ("all six sort-by-row variants (stable/unstable x closure/key/Ord) on every receiver (owned, third-party, every "
+                "mutable window) with every key row over a three-letter alphabet (all tie patterns) and every row index in and out of "
+                "range; stable variants must produce THE stable result, unstable ones any sorting permutation of whole columns; "
+                "distinct by (root kind, shape, stack, variant, line, key pattern)")
+    sort_pipeline(ctx, "row")
+
+
+def p_C17(ctx):
+    ctx.rule = ("all five sort-by-column variants on every receiver with every key column over a three-letter alphabet and every "
+                "column index in and out of range; stable variants must produce THE stable result, unstable ones any sorting "
+                "permutation of whole rows; distinct by (root kind, shape, stack, variant, line, key pattern)")
+    sort_pipeline(ctx, "col")
+
+
+
 PIPELINES = {
     "C01": p_C01,
     "C05": p_C05,
     "C06": p_C06,
     "C07": p_C07,
+    "C02": p_C02, "C03": p_C03, "C04": p_C04, "C13": p_C13, "C14": p_C14, "C15": p_C15, "C16": p_C16, "C17": p_C17,
 }
 
 
